@@ -7,7 +7,7 @@
 // Built four times: {TLS,DTLS} x {victim=server,client}; as tape target (seeded campaign) and as libFuzzer target.
 #include "mxh.h"
 using namespace vf; using namespace mxh;
-extern "C" { int vfh_inlen(const ssl_t *); int vfh_insize(const ssl_t *); int vfh_outlen(const ssl_t *); int vfh_outsize(const ssl_t *); int vfh_hs_state(const ssl_t *); }
+extern "C" { int vfh_inlen(const ssl_t *); int vfh_insize(const ssl_t *); int vfh_outlen(const ssl_t *); int vfh_outsize(const ssl_t *); int vfh_hs_state(const ssl_t *); int vfh_session_id_len(const ssl_t *); }
 
 #ifndef C08_DTLS
 #define C08_DTLS 0
@@ -24,6 +24,7 @@ static void check_bufs(Endpoint &e, const std::string &desc) {
     if (!e.ssl) return;
     int il = vfh_inlen(e.ssl), is = vfh_insize(e.ssl), ol = vfh_outlen(e.ssl), os = vfh_outsize(e.ssl);
     VF_CHECK(il >= 0 && il <= is && is <= SSL_MAX_BUF_SIZE, "input-buffer-invariant-broken", "inlen=%d insize=%d max=%d; %s", il, is, SSL_MAX_BUF_SIZE, desc.c_str());
+    VF_CHECK(vfh_session_id_len(e.ssl) <= SSL_MAX_SESSION_ID_SIZE, "embedded-array-overrun:sessionId", "ssl->sessionIdLen=%d exceeds the %d-byte array inside ssl_t; %s", vfh_session_id_len(e.ssl), SSL_MAX_SESSION_ID_SIZE, desc.c_str());
     VF_CHECK(ol >= 0 && ol <= os && os <= SSL_MAX_BUF_SIZE, "output-buffer-invariant-broken", "outlen=%d outsize=%d max=%d; %s", ol, os, SSL_MAX_BUF_SIZE, desc.c_str());
 }
 
@@ -82,7 +83,7 @@ static void prop(Tape &t, Ctx &c) {
             case 8: if (u.size() >= (dt ? 25u : 9u)) { size_t h = (dt ? 13 : 5) + 1; uint32_t v = t.u8() & 1 ? 0xffffff : (uint32_t) t.u16(); u[h] = (uint8_t) (v >> 16); u[h + 1] = (uint8_t) (v >> 8); u[h + 2] = (uint8_t) v; } break; // handshake length
             case 9: if (dt && u.size() >= 25) { size_t h = 13 + 6; for (int i = 0; i < 6; i++) u[h + i] = t.u8() & ((kind & 0x80) ? 0xff : 0x03); } else if (!u.empty()) u[0] = (uint8_t) (20 + t.u8() % 5); break;   // DTLS fragment offset/length, or record type
             case 10: { // hello-aware: session-id length / following vector lengths of a ClientHello/ServerHello in this unit
-                size_t hb = (dt ? 13 + 12 : 5 + 4); if (u.size() > hb + 35 && u[0] == 22 && (u[dt ? 13 : 5] == 1 || u[dt ? 13 : 5] == 2)) { size_t sidoff = hb + 34; uint8_t v = t.u8(); if (kind & 0x80) { u[sidoff] = v; } else { size_t o2 = sidoff + 1 + u[sidoff]; if (o2 + 1 < u.size()) { u[o2] = v; u[o2 + 1] = t.u8(); } } } break; }
+                size_t hb = (dt ? 13 + 12 : 5 + 4); if (u.size() > hb + 35 && u[0] == 22 && (u[dt ? 13 : 5] == 1 || u[dt ? 13 : 5] == 2)) { size_t sidoff = hb + 34; uint8_t v = t.u8(); if (kind & 0x80) { size_t rem = u.size() - sidoff - 1; /* lengths just past the 32-byte maximum that still fit into the message are the interesting ones */ switch (v & 3) { case 0: v = 33; break; case 1: v = (uint8_t) (33 + (v >> 2) % 32); break; case 2: v = (uint8_t) std::min<size_t>(rem, 255); break; default: break; } u[sidoff] = v; } else { size_t o2 = sidoff + 1 + u[sidoff]; if (o2 + 1 < u.size()) { u[o2] = v; u[o2 + 1] = t.u8(); } } } break; }
             case 11: { // first bytes of the handshake body (vector length prefixes of Certificate, KeyExchange, CertificateRequest, NewSessionTicket...)
                 size_t hb = (dt ? 13 + 12 : 5 + 4); if (u.size() > hb + 8 && u[0] == 22) { size_t k = t.u8() % 8; u[hb + k] = t.u8(); } break; }
             }
